@@ -1646,6 +1646,10 @@ class LoopView:
         except KeyError:
             return False
 
+    def locals(self):
+        """the function's own locals (name -> value): lets an invariant find a variable by its role instead of its name"""
+        return dict(self._env.local)
+
 
 def _as_store(node):
     n = ast.parse(ast.unparse(node), mode="eval").body
